@@ -254,6 +254,35 @@ def _l1_chunk(args):
     return outpath, r.returncode, r.stderr[-2000:]
 
 
+def _bisect_crash(fam, seed, start, count, outpath):
+    """the single case of [start, start+count) on which the comparer process dies, as a mismatch record of kind `panic`"""
+    lo, n = start, count
+    while n > 1:
+        h = n // 2
+        _, rc, _ = _l1_chunk((fam, seed, lo, h, outpath))
+        if rc != 0:
+            n = h
+        else:
+            lo, n = lo + h, n - h
+    _, rc, err = _l1_chunk((fam, seed, lo, 1, outpath))
+    if rc == 0:
+        return None
+    r = sh([DRV, 'gen', fam, str(seed), str(lo), '1'])
+    c = dict(id=f'{fam}/{seed}/{lo}', entry='', args='', item='')
+    for line in r.stdout.splitlines():
+        if line.startswith('CASE '):
+            c['id'] = line[5:]
+        elif line.startswith('ENTRY '):
+            c['entry'] = line[6:]
+        elif line.startswith('ARGS'):
+            c['args'] = line[4:].strip()
+        elif line.startswith('ITEM '):
+            c['item'] = line[5:]
+    c['mismatches'] = [dict(seg=-1, label='*', kind='panic', model='',
+                            real=f'the expander killed its process on this input (exit status {rc}: stack overflow or abort) {err[-300:]}')]
+    return c
+
+
 def run_l1(tag, fam, seed, total, start=0):
     """Runs `total` cases of a family through model and real expander in parallel.
     Returns dict(summary=..., mismatches=[...], failed=[...])."""
@@ -271,9 +300,17 @@ def run_l1(tag, fam, seed, total, start=0):
     mismatches = []
     failed = []
     with cf.ThreadPoolExecutor(NPROC) as ex:
-        for outpath, rc, err in ex.map(_l1_chunk, jobs):
+        for job, (outpath, rc, err) in zip(jobs, ex.map(_l1_chunk, jobs)):
             if rc != 0:
-                failed.append(f'{outpath}: rc={rc} {err}')
+                # the comparer died (a stack overflow or an abort inside the expander cannot be caught in-process):
+                # find the case that kills it
+                crash = _bisect_crash(job[0], job[1], job[2], job[3], outpath)
+                if crash:
+                    mismatches.append(crash)
+                    summary['bad_cases'] += 1
+                    summary['mismatch_kinds']['panic'] = summary['mismatch_kinds'].get('panic', 0) + 1
+                else:
+                    failed.append(f'{outpath}: rc={rc} {err}')
                 continue
             for line in open(outpath):
                 line = line.strip()
